@@ -10,8 +10,8 @@ from ..pe import PERaise
 LEVEL = "proof"
 META = {
     "text": "Every non-singlet method (8 methods x orders 1-4) is extracted as a formula and proved to equal 1 at a1=a0; the "
-            "singlet dispatcher is proved to return the identity for equal couplings for every method and order (its equality "
-            "guard precedes every method branch, CFG rule + PE); the QED non-singlet, singlet and valence kernels are proved to be "
+            "singlet dispatcher is proved to return the identity for equal couplings for every method and order (evaluated with "
+            "one symbol for both couplings: the closed forms are 0/0 there); the QED non-singlet, singlet and valence kernels are proved to be "
             "the identity when all coupling steps coincide. Composition E(a2,a1)E(a1,a0) = E(a2,a0) is proved as an identity in "
             "all symbols for the non-singlet exact, expanded and ordered-truncated kernels at orders 1-4 and for the LO singlet "
             "kernel with a general 2x2 matrix. Every singlet method that iterates over coupling steps (orders 2-4) is proved to "
@@ -21,7 +21,7 @@ META = {
             "kernel's composition up to discretisation error only the path ordering of the step product is decided (a necessary "
             "condition: for the reversed product the error does not shrink with the number of steps); the size of the "
             "discretisation error is a runtime quantity. PIT in F_p (error < 1e-30).",
-    "technique": "partial evaluation to formulas + polynomial identity testing; guard-dominance rule on the singlet dispatcher",
+    "technique": "partial evaluation to formulas + polynomial identity testing",
     "engine": "sa",
 }
 
@@ -52,19 +52,8 @@ def run(chk):
                        where=nd.where, instance=inst, data={"witness": info}, how="PIT F_p")
 
     # ---- identity at equal couplings: singlet dispatcher (guard) ------------------------------
-    # structural: the first `if` of the dispatcher compares the two couplings and returns an identity matrix
-    first_if = next((st for st in sd.node.body if isinstance(st, ast.If)), None)
-    guard_ok = False
-    if first_if is not None and isinstance(first_if.test, ast.Compare) and len(first_if.test.ops) == 1 \
-            and isinstance(first_if.test.ops[0], ast.Eq):
-        names = {ast.unparse(first_if.test.left), ast.unparse(first_if.test.comparators[0])}
-        params = sd.params
-        if names == {params[3], params[4]} and first_if.body and isinstance(first_if.body[0], ast.Return):
-            guard_ok = True
-    chk.decide(guard_ok, "equal-couplings-guard-dominates-methods", sd.qname,
-               "the singlet dispatcher no longer starts its method selection with `if a1 == a0: return identity` "
-               "(the closed forms are 0/0 at equal couplings)", where=sd.where,
-               detail="first branch is the equal-couplings guard")
+    # (evaluated: with the same symbol for both couplings every method must return the identity; the closed forms are 0/0 there, so
+    # a dispatcher that does not single the case out fails with a division by an exact zero)
     for n in range(1, 5):
         G = kern.sg_gamma(n)
         for mname, mem in M.items():
